@@ -377,7 +377,10 @@ def strategy_(d, tier):
         g.real_op()
     while g.m.save:
         g.push(dict(k="restore"))
-    first = 0 if chance(d, 2, 3) else 1
+    # first: 0 = table behind the body; 1 = table in front (forward references: several passes); 2 = the same without
+    # the table's own ORG 0, i.e. relying on the CODE segment starting at 0 in every pass; 3 = additionally without the
+    # table's CPU statement (-cpu on the command line)
+    first = 0 if chance(d, 2, 3) else d.choice([1, 2, 3])
     # the first target may come from the command line (-cpu) instead of a CPU statement: the implicitly active
     # CODE segment then starts with whatever the program does first (ORG, reservations, ...)
     return dict(cpus=cpus, first=first, ops=g.ops, cpuopt=bool(first == 0 and chance(d, 1, 3)))
@@ -495,6 +498,15 @@ def render(case):
         body = ["; (target selected with -cpu %s)" % args[1]] + body[1:]
         feats.add("cpu-from-command-line")
     if case.get("first"):
+        if case["first"] == 2:
+            head = head[:1]
+            feats.add("table-first-at-implicit-origin")
+        elif case["first"] == 3:
+            # not even a CPU statement in front of the table: target from the command line, origin implicit
+            head = []
+            args = ["-cpu", TABLE_CPU]
+            feats.add("table-first-at-implicit-origin")
+            feats.add("cpu-from-command-line")
         src += head + tab + ["\torg 0"]
         bodyline = len(src) + 1
         src += body + ["\tlisting on"]
@@ -534,7 +546,7 @@ def parse_symtab(lst):
 def execute(case):
     src, exp = render(case)
     feats = exp["feats"]
-    classes = ["cpus:" + "+".join(case["cpus"]), "table-first" if case.get("first") else "table-last"]
+    classes = ["cpus:" + "+".join(case["cpus"]), ["table-last", "table-first", "table-first-implicit-origin", "table-first-implicit-origin-and-cpu"][case.get("first") or 0]]
     classes += sorted(feats)
     classes += ["op:" + k for k in sorted(set(exp["kinds"]))]
     n = len(case["ops"])
@@ -750,6 +762,8 @@ def fixed_cases(tier):
                 dict(k="seg", s="xdata" if which == "code" else "code"), dict(k="res", form="ds", n=1)]
     F(["8051"], seq)
     F(["8051"], seq, first=1)
+    F(["8051"], seq, first=2)
+    F(["8051"], seq, first=3)
     # documented initial values of the segment counters
     F(["8051", "z80", "16c84"], [dict(k="cpu", c="8051"), dict(k="seg", s="idata"), dict(k="seg", s="xdata"),
                                   dict(k="seg", s="bitdata"), dict(k="seg", s="code"), dict(k="cpu", c="z80"),
